@@ -5,6 +5,12 @@ same-valued float, None equals None and NaN equals NaN (whatever the identity of
 matching (l, r) pairs carrying the key, every other column of both sides and same-named non-key columns combined by `mode`;
 xor is the multiset of the rows of x whose key matches no row of y.  Nothing here reads the implementation.
 
+Typed-order keys: sort() orders a key list natively when it can and through Cmp when it cannot (a None, a NaN or a value of
+another type among the keys), and the merge of join / xor walks the two independently sorted group lists with cmp.  The two
+orders must therefore agree on every type; the typed universe (FAMILIES) holds per type at least three values on which the native
+order differs from the obvious alternatives and mixes them with such odd keys on neither, one or both sides.  +-inf keys and a
+bool next to numbers are enumerated as small fixed classes reported under key suffixes of their own (inf-keys, bool-number-keys).
+
 Every evaluation happens in a forked child (rac.common.call_with_timeout): cases whose key columns hold NaN on both sides run
 one per child (they are the ones that may spin), all the others run in batches and a batch that does not come back is re-run
 case by case."""
@@ -15,6 +21,41 @@ from rac.common import Collector, call_with_timeout
 DT = datetime.datetime(2020, 1, 1)
 DT_ISO = DT.isoformat()
 UNIVERSE = [None, 1, 1.0, 2, 'a', DT_ISO, 'nan1', 'nan2']     # tokens; DT_ISO -> datetime, nanK -> distinct float('nan') objects
+# the "typed order" universe: per key type at least three values whose native order differs from the obvious alternatives
+# (strings: alphabetical vs by length; numbers: negative, ints with floats between them, repr order '10' < '2', -0.0 == 0;
+# datetimes: by instant vs by day-of-month / time-of-day), to be mixed with keys that force the Cmp fallback of sort()
+DT_PREV, DT_NOON = datetime.datetime(2019, 12, 31).isoformat(), datetime.datetime(2020, 1, 1, 12).isoformat()
+FAMILIES = {
+    'str': ['', 'a', 'b', 'ab', 'abc'],
+    'num': [-2.5, -1, 0, -0.0, 1, 1.5, 2, 10],
+    'dt': [DT_PREV, DT_ISO, DT_NOON],
+    'bool': [False, True],
+}
+FAMILY_CORE = {'str': ['b', 'ab', ''], 'num': [10, 2, -1.5], 'dt': [DT_PREV, DT_ISO, DT_NOON], 'bool': [False, True]}     # the exhaustive part
+# keys of another kind: they make the key list of that table not natively sortable.  No numbers next to bools (True == 1 is
+# python's ==, the statement is silent on it); those are in BOOL_NUMBER below under a key class of their own
+SPECIALS = {
+    'str': [None, 'nan1', 2, DT_ISO, 'nan2', -1.5, True],
+    'num': [None, 'nan1', 'a', DT_ISO, 'nan2', '', 'ab'],
+    'dt': [None, 'nan1', 'a', 2, 'nan2', -0.0, True],
+    'bool': [None, 'nan1', 'a', DT_ISO, 'nan2', ''],
+}
+# key classes the statement covers only by a stretch; each is reported under a key suffix of its own (see klass)
+INF_CASES = [       # +inf / -inf keys ("floats"): equal only to themselves, in particular not to NaN
+    ([['inf'], [1]], [['nan1'], [1]]),
+    ([['-inf'], [1]], [[1], ['-inf'], [None]]),
+    ([['inf']], [['-inf']]),
+    ([['inf'], ['-inf'], [0]], [[0], ['inf'], ['-inf']]),
+    ([['inf'], [2], ['a']], [['a'], ['inf'], [2]]),
+    ([['-inf'], [-1], [1]], [[-1], [1], [None]]),
+    ([['nan1'], ['inf']], [['nan1'], [3]]),
+]
+BOOL_NUMBER_CASES = [   # a bool next to numbers other than 0 and 1 (so that whether True == 1 counts as a match does not matter)
+    ([[-1], [True], [2]], [[None], [-1], [True], [2]]),
+    ([[True], [2]], [[2], [True]]),
+    ([[False], [-1], [2.5]], [[2.5], [False], ['a']]),
+    ([[True], [False], [5]], [[5], [None], [False]]),
+]
 T_SINGLE = 2.0          # seconds for a single join/xor of two tables with <= 4 rows (they take < 1 ms)
 T_BATCH = 120.0
 
@@ -36,6 +77,8 @@ def decoder():
                 if tok not in nans:
                     nans[tok] = float('nan')
                 return nans[tok]
+            if tok in ('inf', '-inf'):
+                return float(tok)
             if re.match(r'^\d{4}-\d\d-\d\dT', tok):
                 return datetime.datetime.fromisoformat(tok)
         return tok
@@ -172,6 +215,8 @@ def klass(spec):
     """input class suffix for the keys: NaN among the key cells / no key column at all"""
     if spec.get('nokey'):
         return ':no-key'
+    if spec.get('cls'):
+        return ':' + spec['cls']            # inf-keys / bool-number-keys
     return ':nan-keys' if spec.get('nan') else ''
 
 
@@ -336,6 +381,61 @@ def gen_small_exhaustive():
             yield mk_spec(['a', 'v', 'li'], lrows, ['a', 'v', 'ri'], rrows, 'a', None, None, [0], [0], spell='str')
 
 
+def typed_rows(keys, base):
+    return [list(k) + [base * (i + 1), i] for i, k in enumerate(keys)]
+
+
+def gen_typed_small():
+    """per key type: every pair of a table whose two keys are distinct values of that type (its key list sorts natively) with a
+    table holding one value of the type and one key of another kind (None, a NaN, a value of another type; its key list
+    needs the Cmp fallback), in both row orders and with the roles of the sides swapped; and every pair of two homogeneous tables"""
+    for fam, core in FAMILY_CORE.items():
+        homog = [list(p) for p in itertools.permutations(core, 2)]
+        mixed = []
+        for v in core:
+            for sp in SPECIALS[fam][:3]:
+                mixed += [[v, sp], [sp, v]]
+        for left, right in [(h, m) for h in homog for m in mixed] + [(m, h) for h in homog for m in mixed] + [(h, g) for h in homog for g in homog]:
+            lrows, rrows = typed_rows([[k] for k in left], 10), typed_rows([[k] for k in right], 100)
+            yield mk_spec(['a', 'v', 'li'], lrows, ['a', 'v', 'ri'], rrows, 'a', None, None, [0], [0], spell='str', fam=fam)
+
+
+TYPED_SPELLINGS = [s for s in SPELLINGS if s[0] not in ('computed-left', 'cross')]
+
+
+def gen_typed(rng):
+    """seeded: 2-4 rows a side with keys of one type family (3+ values), 1 or 2 key columns, a key of another kind on neither,
+    one or both sides"""
+    fam = rng.choice(['str', 'str', 'num', 'num', 'dt', 'bool'])
+    name, nk, lk, rk, lsp, rsp = rng.choice(TYPED_SPELLINGS)
+    vals = FAMILIES[fam]
+    pool = rng.sample(vals, min(len(vals), rng.choice([2, 3, 3, 4])))
+    if nk == 2:     # the second key column: constant, the same family, or a family of its own
+        kind = rng.choice(['const', 'same', 'other'])
+        pool2 = [7] if kind == 'const' else pool if kind == 'same' else rng.sample(FAMILIES[rng.choice(['str', 'num', 'dt'])], 2)
+    where = rng.choice(['none', 'left', 'left', 'right', 'right', 'both'])
+    sides = []
+    for side in ('left', 'right'):
+        n = rng.choice([2, 3, 3, 4])
+        keys = [[rng.choice(pool)] + ([rng.choice(pool2)] if nk == 2 else []) for _ in range(n)]
+        if where in (side, 'both'):
+            sp, col = rng.choice(SPECIALS[fam]), rng.randrange(nk)
+            keys[rng.randrange(n)][0 if isinstance(sp, bool) else col] = sp       # a bool never into a column that may hold 0 / 1
+        sides.append(keys)
+    lrows, rrows = typed_rows(sides[0], 10), typed_rows(sides[1], 100)
+    kw = dict(spell=name, fam=fam)
+    if rng.random() < .15:
+        kw['xor_mode'] = 'r'
+    return mk_spec(lk + ['v', 'li'], lrows, rk + ['v', 'ri'], rrows, lsp, rsp, rng.choice(MODES), list(range(nk)), list(range(nk)), **kw)
+
+
+def gen_fixed_classes():
+    for cls, cases in (('inf-keys', INF_CASES), ('bool-number-keys', BOOL_NUMBER_CASES)):
+        for left, right in cases:
+            for l, r in ((left, right), (right, left)):
+                yield mk_spec(['a', 'v', 'li'], typed_rows(l, 10), ['a', 'v', 'ri'], typed_rows(r, 100), 'a', None, None, [0], [0], spell='str', cls=cls)
+
+
 FIXED_SUSPECT = [
     # the D1 input: two distinct NaN objects as keys
     mk_spec(['a', 'li'], [['nan1', 0], [1, 1]], ['a', 'ri'], [['nan2', 0], [2, 1]], 'a', None, None, [0], [0], spell='str'),
@@ -397,15 +497,22 @@ def run(tier, seed):
     n_random = 2500 if quick else 60000
     n_natural = 400 if quick else 6000
     n_suspect = 27 if quick else 1000
+    n_typed = 600 if quick else 30000
     workers = 8 if quick else 14
     c = Collector('C02', rule='pairs of tables (left: key columns + shared value column v + row id li; right likewise with ri) with 0-4 rows each and 0-2 key columns whose '
                   'cells are drawn from {None, 1, 1.0, 2, "a", datetime, nan1, nan2} (nan1/nan2 distinct float objects, the same token is the same object on both sides). '
                   '(1) every pair of one-key-column tables with <= 2 rows each (73 x 73) joined on "a", except the pairs with NaN keys on both sides which are sampled; '
                   '(2) %d seeded random pairs over 15 lcols/rcols spellings (str, list, tuple, renamed right key, lambdas on either side, computed key, two key columns, swapped, cross) '
                   'x modes {None,"l","r","left","RHS",0,1,callable} x xor mode l/r; (3) %d pairs joined on their shared columns through x*y / x/y or lcols=None; '
-                  '(4) %d pairs with NaN keys on both sides, one forked child per call with a %.1f s kill timeout. A case is non-trivial when both tables have rows; '
-                  'distinct by (tables, spellings, mode).' % (n_random, n_natural, n_suspect + len(FIXED_SUSPECT), T_SINGLE),
-                  exhaustive=False, scope='<= 4 rows per table, 0-2 key columns, 8-value key universe incl. two NaN identities; exhaustive only for 1 key column x <= 2 rows without NaN on both sides')
+                  '(4) %d pairs with NaN keys on both sides, one forked child per call with a %.1f s kill timeout; '
+                  '(5) typed-order keys - strings of different lengths {"", a, b, ab, abc}, numbers {-2.5, -1, 0, -0.0, 1, 1.5, 2, 10}, three datetimes, bools - mixed with keys of '
+                  'another kind (None, NaN, a value of another type) that force the Cmp fallback of sort() on that side: every pair of a 2-row table with two distinct keys of one type '
+                  '(3 core values per type) and a 2-row table with one such key and one key of another kind, both row orders and both side assignments, plus all homogeneous pairs; '
+                  '%d seeded pairs with 2-4 rows, 1-2 key columns, the odd key on neither / one / both sides, over 13 spellings x modes; '
+                  '(6) %d fixed pairs with +-inf keys and %d with a bool next to numbers, reported under the key classes inf-keys / bool-number-keys. '
+                  'A case is non-trivial when both tables have rows; distinct by (tables, spellings, mode).'
+                  % (n_random, n_natural, n_suspect + len(FIXED_SUSPECT), T_SINGLE, n_typed, 2 * len(INF_CASES), 2 * len(BOOL_NUMBER_CASES)),
+                  exhaustive=False, scope='<= 4 rows per table, 0-2 key columns, 8-value key universe incl. two NaN identities plus a typed-order universe (5 strings, 8 numbers, 3 datetimes, 2 bools, +-inf); exhaustive only for 1 key column x <= 2 rows without NaN on both sides')
     batch, suspects = [], list(FIXED_SUSPECT)
     small_suspects = []
     for s in gen_small_exhaustive():
@@ -422,6 +529,9 @@ def run(tier, seed):
         batch.append(gen_natural(rng))
     for _ in range(n_suspect - k_small):
         suspects.append(gen_random(rng, force_suspect=True))
+    # typed-order universe (added after every older draw so that the older cases stay what they were for a given seed)
+    for s in itertools.chain(gen_typed_small(), gen_fixed_classes(), (gen_typed(rng) for _ in range(n_typed))):
+        (suspects if s['suspect'] else batch).append(s)
 
     import concurrent.futures as cf
     import multiprocessing as mp
